@@ -8,11 +8,11 @@ ALL_INV = ["TypeOK", "Conserved", "EofAfterAllData", "EofAtMostOnce", "ReadCbOnl
 
 def consts(kind, acts, D, *, sizes=(1, 2, 3), wms=((0, 0), (1, 2), (2, 2), (2, 1), (0, 1)), durs=(0, 1, 2),
            drains=(0, 1, 99), extras=("none",), defer=False, filtfn="id", maxcb=8, tend=5, rdcap=16384, wrcap=16384,
-           conn="none", allow=(), xkinds=("r", "e"), script_until=2, oneway=False):
+           conn="none", allow=(), xkinds=("r", "e"), script_until=2, oneway=False, wirecap=40):
     return {"Kind": kind, "Acts": set(acts), "Sizes": set(sizes), "WMs": set(10 * w[0] + w[1] for w in wms),
             "Durs": set(durs), "D": D, "Drains": set(drains), "Extras": set(extras), "XKinds": set(xkinds), "ScriptUntil": script_until, "Defer": bool(defer),
             "FiltFn": filtfn, "MaxCb": maxcb, "TEnd": tend, "RdCap": rdcap, "WrCap": wrcap, "Conn": conn,
-            "Allow": set(allow), "OneWay": bool(oneway)}
+            "Allow": set(allow), "OneWay": bool(oneway), "WireCap": wirecap}
 
 
 def tla_val(v):
